@@ -155,6 +155,13 @@ def R(nc, td):
     return ""
 
 
+def WITH_LITERALS(td, literals):
+    """The literal type dictionary td with its literals replaced."""
+    td = dict(td)
+    td["literals"] = literals
+    return td
+
+
 def RU(nc, td):
     """Union rendering: literal members merged into one literal<...>; {literal, None} -> literal<..., null>;
     duplicates removed; one distinct member -> that member; {T, None} with T a named-like type -> T?;
@@ -166,7 +173,7 @@ def RU(nc, td):
     merged = ((others + [{"kind": "LiteralType", "literals": [v for t in lits for v in t["literals"]]}]) if (len(lits) >= 2) else (members))
     if len(merged) == 2 and len(lits) >= 1 and (IS_NONE_TD(merged[0]) or IS_NONE_TD(merged[1])):
         lit = ((merged[0]) if (merged[0]["kind"] == "LiteralType") else (merged[1]))
-        return R(nc, {"kind": "LiteralType", "literals": lit["literals"] + [None]})
+        return R(nc, WITH_LITERALS(lit, lit["literals"] + [None]))
     rendered = sorted(list({R(nc, t) for t in merged}))
     if len(rendered) == 0:
         return ""
@@ -184,7 +191,10 @@ FREE_MARKERS = {"internal class as type"}
 
 
 def TF_POST(td, r):
-    return r.issubset(TODO_KEYS)
+    # consequences of the definition below that are used where TF is applied to a member type without unfolding it:
+    # only keys of the marker table are raised; named and literal types raise nothing
+    return r.issubset(TODO_KEYS) and implies(
+        td is not None and (td["kind"] == "NamedType" or td["kind"] == "LiteralType"), r == set())
 
 
 @opaque(ann="set", post="TF_POST")
@@ -298,8 +308,10 @@ class create_type_string:
     unfold = ["R", "TF"]
 
     def requires_quick(self, type_data):
-        # quick tier: every kind except unions is proved; the union branch (literal merging, de-duplication,
-        # sorting, nullable shorthand) is proved in the thorough tier and enumerated natively in both tiers
+        # every kind except unions is proved. The union branch (literal merging, de-duplication, sorting, nullable
+        # shorthand) is enumerated natively in both tiers (bounded); its proof is attempted only with PYVC_FULL=1 in
+        # the thorough tier: 1528 of 1532 obligations discharge, the general sort/None-reordering paths (outcomes
+        # 48 and 51) stay undecided within the budgets
         return type_data is None or type_data["kind"] != "UnionType"
 
     @clause(props=["C05", "C02"])
